@@ -222,7 +222,7 @@ Proof.
   destruct default_rep as (t0 & Et0 & H0). rewrite Et0. cbn [load_tables]. rewrite (encode_titems ts Hs).
   destruct (parse_f3 ts t0 Hok Hfr H0) as (s' & gF & plF & Eparse & HF & DF & Etb).
   rewrite Eparse. cbn [load_tables app]. change (0 =? 0) with true. cbv iota.
-  rewrite (view_f3 (p_tree s') gF plF HF _ ts DF Hok).
+  rewrite (view_f3 (p_tree s') gF plF HF [table_image (enc_titems ts)] ts (hdr_of (enc_titems ts)) DF Hok ltac:(rewrite table_image_hdr; reflexivity) eq_refl).
   unfold ns. cbn [flat_map]. rewrite app_nil_r.
   rewrite (entries_titems _ ts (fun d Hd' => resolve_env_default _ d Hd') Hs Hd).
   f_equal. apply sort_perm. apply view3_perm. exact Hok.
